@@ -1,0 +1,46 @@
+//go:build verif
+
+// Contracts for the deductive checks in /verif (comment-only; not part of normal builds).
+
+package operations
+
+// decodable(op): the body bytes are JSON that decodes into the body struct of op's type.
+// Uninterpreted: value fidelity through encoding/json is outside the contracts (C14 excluded clause).
+//@ function decodable(op *model.Operation) bool
+
+//@ pred knownOpType(t model.TypeOfOperation) = t == model.TypeOfOperation_COUNTER_SNAPSHOT || t == model.TypeOfOperation_MAP_SNAPSHOT || t == model.TypeOfOperation_LIST_SNAPSHOT || t == model.TypeOfOperation_DOC_SNAPSHOT || t == model.TypeOfOperation_ERROR || t == model.TypeOfOperation_TRANSACTION || t == model.TypeOfOperation_COUNTER_INCREASE || t == model.TypeOfOperation_MAP_PUT || t == model.TypeOfOperation_MAP_REMOVE || t == model.TypeOfOperation_LIST_INSERT || t == model.TypeOfOperation_LIST_DELETE || t == model.TypeOfOperation_LIST_UPDATE || t == model.TypeOfOperation_DOC_OBJ_PUT || t == model.TypeOfOperation_DOC_OBJ_RMV || t == model.TypeOfOperation_DOC_ARR_INS || t == model.TypeOfOperation_DOC_ARR_DEL || t == model.TypeOfOperation_DOC_ARR_UPD
+
+// unmarshalBody decodes JSON into c and returns c. Trusted: the decoding itself is encoding/json.
+//@ func unmarshalBody
+//@   trusted json.Unmarshal into the freshly allocated body struct; panics on undecodable bytes (excluded by decodable(op) at the callers)
+//@   mode math
+//@   ensures result == c
+//@   modifies TransactionBody.*, errorBody.*, increaseBody.*, PutBody.*, RemoveBody.*, InsertBody.*, DeleteBody.*, UpdateBody.*, DocPutInObjBody.*, DocRemoveInObjectBody.*, DocInsertToArrayBody.*, DocDeleteInArrayBody.*, DocUpdateInArrayBody.*
+
+// ModelToOperation: identifier and type survive, the Go operation type matches the wire type,
+// and the unsupported-type panic is unreachable for every declared type.
+//@ func ModelToOperation
+//@   mode math
+//@   props C14 C09
+//@   requires op != nil && knownOpType(op.OpType) && decodable(op)
+//@   ensures[non-nil]  result != nil && fresh(result)
+//@   ensures[id]       result.GetID() == op.ID
+//@   ensures[type]     result.GetType() == op.OpType
+//@   ensures[tx]       (op.OpType == model.TypeOfOperation_TRANSACTION) == result.(*TransactionOperation)
+//@   ensures[tx-body]  op.OpType == model.TypeOfOperation_TRANSACTION ==> result.(*TransactionOperation).Body.(*TransactionBody)
+//@   ensures[err]      (op.OpType == model.TypeOfOperation_ERROR) == result.(*ErrorOperation)
+//@   ensures[err-body] op.OpType == model.TypeOfOperation_ERROR ==> result.(*ErrorOperation).Body.(*errorBody)
+//@   ensures[snapshot] (op.OpType == model.TypeOfOperation_COUNTER_SNAPSHOT || op.OpType == model.TypeOfOperation_MAP_SNAPSHOT || op.OpType == model.TypeOfOperation_LIST_SNAPSHOT || op.OpType == model.TypeOfOperation_DOC_SNAPSHOT) == result.(*SnapshotOperation)
+//@   ensures[increase] (op.OpType == model.TypeOfOperation_COUNTER_INCREASE) == result.(*IncreaseOperation)
+//@   ensures[put]      (op.OpType == model.TypeOfOperation_MAP_PUT) == result.(*PutOperation)
+//@   ensures[remove]   (op.OpType == model.TypeOfOperation_MAP_REMOVE) == result.(*RemoveOperation)
+//@   ensures[insert]   (op.OpType == model.TypeOfOperation_LIST_INSERT) == result.(*InsertOperation)
+//@   ensures[delete]   (op.OpType == model.TypeOfOperation_LIST_DELETE) == result.(*DeleteOperation)
+//@   ensures[update]   (op.OpType == model.TypeOfOperation_LIST_UPDATE) == result.(*UpdateOperation)
+//@   ensures[docput]   (op.OpType == model.TypeOfOperation_DOC_OBJ_PUT) == result.(*DocPutInObjOperation)
+//@   ensures[docrmv]   (op.OpType == model.TypeOfOperation_DOC_OBJ_RMV) == result.(*DocRemoveInObjOperation)
+//@   ensures[docins]   (op.OpType == model.TypeOfOperation_DOC_ARR_INS) == result.(*DocInsertToArrayOperation)
+//@   ensures[docdel]   (op.OpType == model.TypeOfOperation_DOC_ARR_DEL) == result.(*DocDeleteInArrayOperation)
+//@   ensures[docupd]   (op.OpType == model.TypeOfOperation_DOC_ARR_UPD) == result.(*DocUpdateInArrayOperation)
+//@   ensures[input-untouched] op.ID == old(op.ID) && op.OpType == old(op.OpType)
+//@   modifies TransactionBody.*, errorBody.*, increaseBody.*, PutBody.*, RemoveBody.*, InsertBody.*, DeleteBody.*, UpdateBody.*, DocPutInObjBody.*, DocRemoveInObjectBody.*, DocInsertToArrayBody.*, DocDeleteInArrayBody.*, DocUpdateInArrayBody.*, baseOperation.*, SnapshotOperation.*, ErrorOperation.*, TransactionOperation.*, IncreaseOperation.*, PutOperation.*, RemoveOperation.*, InsertOperation.*, DeleteOperation.*, UpdateOperation.*, DocPutInObjOperation.*, DocRemoveInObjOperation.*, DocInsertToArrayOperation.*, DocDeleteInArrayOperation.*, DocUpdateInArrayOperation.*
